@@ -279,11 +279,19 @@ func genC09Plan(seed int64, tier string) *C09Plan {
 	m := &model.Msg{Proto: mp, Time: 2, Seq: 2, Domain: 1, SysUp: r.Uint32()}
 	ns := 1 + r.Intn(4)
 	used := 20
+	type inMsgTpl struct {
+		at   int // index in m.Sets of the (first) set announcing it
+		id   uint16
+		body []byte // records of it, as they appear in a data set
+	}
+	var inMsg []inMsgTpl
 	for s := 0; s < ns; s++ {
-		if r.Intn(6) == 0 {
+		if r.Intn(4) == 0 {
 			nt := g.Template(uint16(300 + s))
+			at := len(m.Sets)
 			m.Sets = append(m.Sets, g.TemplateSets([]model.Template{nt})...)
 			ds, sz := g.DataSet(&nt, 1+r.Intn(3), 300)
+			inMsg = append(inMsg, inMsgTpl{at, nt.ID, model.EncodeRecords(&nt, ds.Recs, mp == "ipfix")})
 			m.Sets = append(m.Sets, ds)
 			used += sz + 60
 			continue
@@ -308,6 +316,15 @@ func genC09Plan(seed int64, tier string) *C09Plan {
 	}
 	for i := 0; i < ni; i++ {
 		var s model.Set
+		if len(inMsg) > 0 && r.Intn(4) == 0 {
+			// a data set for a template that the message itself announces only
+			// later: unknown where it stands, it must be skipped - and the data
+			// set that follows the announcement must still be decoded
+			x := inMsg[r.Intn(len(inMsg))]
+			s = model.Set{Kind: model.SetRaw, RawID: x.id, RawBody: append([]byte(nil), x.body...)}
+			p.Inserts = append(p.Inserts, C09Insert{Pos: r.Intn(x.at + 1), Set: s})
+			continue
+		}
 		switch r.Intn(3) {
 		case 0:
 			lo := 4
